@@ -105,6 +105,19 @@ func libWrites(c *ssa.CallCommon) []int {
 	if strings.HasPrefix(full, "golang.org/x/exp/slices.Sort") || strings.HasPrefix(full, "slices.Sort") {
 		return []int{0}
 	}
+	// mutating methods of the synchronised containers: race-free, but state all the same
+	if strings.HasPrefix(full, "(*sync/atomic.") || strings.HasPrefix(full, "(*sync.Map).") || full == "(*sync.Once).Do" {
+		switch f.Name() {
+		case "Store", "Swap", "CompareAndSwap", "Add", "And", "Or", "LoadOrStore", "LoadAndDelete", "Delete", "CompareAndDelete", "Do", "Clear":
+			return []int{0}
+		}
+	}
+	if strings.HasPrefix(full, "sync/atomic.") {
+		switch {
+		case strings.HasPrefix(f.Name(), "Store"), strings.HasPrefix(f.Name(), "Swap"), strings.HasPrefix(f.Name(), "CompareAndSwap"), strings.HasPrefix(f.Name(), "Add"), strings.HasPrefix(f.Name(), "And"), strings.HasPrefix(f.Name(), "Or"):
+			return []int{0}
+		}
+	}
 	return nil
 }
 
